@@ -223,14 +223,14 @@ class BaseAllFixedSizeElementLocator
     std::size_t element_count_{};
     std::size_t stride_{};
 
-    BaseAllFixedSizeElementLocator() = default;
-
     constexpr BaseAllFixedSizeElementLocator(std::size_t element_count, std::size_t stride) noexcept
         : element_count_(element_count), stride_(stride)
     {
     }
 
   public:
+    BaseAllFixedSizeElementLocator() = default;
+
     BaseAllFixedSizeElementLocator(const BaseAllFixedSizeElementLocator&) = default;
 
     constexpr BaseAllFixedSizeElementLocator(BaseAllFixedSizeElementLocator&& other) noexcept
@@ -404,9 +404,11 @@ class ElementLocatorAndFixedSizes
 class IteratorMixedElementLocator
 {
   private:
-    std::size_t* element_addresses_;
+    std::size_t* element_addresses_{};
 
   public:
+    IteratorMixedElementLocator() = default;
+
     explicit IteratorMixedElementLocator(BaseElementLocator& locator)
         : element_addresses_(locator.element_addresses_.data())
     {
